@@ -77,7 +77,9 @@ class Check:
         self.analysed[what] = n
 
     def finish(self):
-        os.makedirs(WITNESS_DIR, exist_ok=True)
+        selftest = bool(os.environ.get("VERIF_SELFTEST"))
+        if not selftest:
+            os.makedirs(WITNESS_DIR, exist_ok=True)
         viol = [o for o in self.obs if not o["ok"]]
         known_hits = []
         real = []
@@ -97,6 +99,11 @@ class Check:
         for o in real:
             nviol += 1
             wpath = os.path.join(WITNESS_DIR, "%s-%d.json" % (self.pid, nviol))
+            if selftest:
+                print("%s: rule %s violated by %s at %s%s" % (self.pid, o["rule"], o["instance"], o["where"],
+                                                              (": " + o["detail"]) if o["detail"] else ""))
+                print("SELFTEST-VIOLATION property=%s rule=%s" % (self.pid, o["rule"]))
+                continue
             json.dump(dict(property=self.pid, rule=o["rule"], rule_text=self.rules[o["rule"]], instance=o["instance"],
                            key=o["key"], where=o["where"], function=o["fn"], detail=o["detail"], path=o["path"]),
                       open(wpath, "w"), indent=1)
@@ -138,8 +145,9 @@ class Check:
             wall_s=round(time.time() - self.t0, 3),
             violations=len(real),
         )
-        os.makedirs(EVIDENCE_DIR, exist_ok=True)
-        json.dump(ev, open(os.path.join(EVIDENCE_DIR, "%s.json" % self.pid), "w"), indent=1)
+        if not selftest:
+            os.makedirs(EVIDENCE_DIR, exist_ok=True)
+            json.dump(ev, open(os.path.join(EVIDENCE_DIR, "%s.json" % self.pid), "w"), indent=1)
         if not real and self.floor_failures:
             raise AnalysisBroken("; ".join(self.floor_failures))
         print("%s [%s]: %d obligations, %d discharged, %d violated (%d known), %d distinct non-trivial, %.1fs"
